@@ -41,6 +41,19 @@ omit [DecidableEq κ] in
 theorem absPool_append (pool : List (Hash α β κ)) (n : Hash α β κ) : absPool (pool ++ [n]) = absPool pool ++ [n.entries] := by
   simp [absPool]
 
+omit [DecidableEq κ] in
+theorem absPool_set' (pool : List (Hash α β κ)) (i : Nat) (n : Hash α β κ) :
+    absPool (pool.set i n) = (absPool pool).set i n.entries := by
+  simp [absPool, List.map_set]
+
+theorem HInv.putAll {key : α → κ} {h : Hash α β κ} (hi : HInv key h) {o : List (α × β)} (ho : (keys key o).Nodup) :
+    ∃ n, h.putAll key o = some n ∧ n.entries = OMap.merge key h.entries o ∧ HInv key n := by
+  obtain ⟨n, hm, hne, hni⟩ := hi.merge ho
+  refine ⟨n, ?_, hne, hni⟩
+  simp only [Hash.merge] at hm
+  have := congrArg Prod.snd hm
+  simpa [Hash.putAll] using this
+
 theorem PoolInv.set {key : α → κ} {pool : List (Hash α β κ)} (hp : PoolInv key pool) {i : Nat} {h' : Hash α β κ}
     (hi : HInv key h') : PoolInv key (pool.set i h') := by
   intro h hm
@@ -138,5 +151,26 @@ theorem stepH_refines (key : α → κ) (pool : List (Hash α β κ)) (hp : Pool
     cases hg : pool[i]? with
     | none => exact ⟨hp, rfl⟩
     | some h => exact ⟨hp, rfl⟩
+  | mput i e =>
+    simp only [stepHImpl, stepHSpec, absPool_get]
+    cases hg : pool[i]? with
+    | none => exact ⟨hp, rfl⟩
+    | some h =>
+      obtain ⟨n, hm, hne, hni⟩ := (hp.get hg).putAll (o := [e]) (by simp [keys])
+      simp only [Hash.putM, hm, Option.map_some]
+      refine ⟨hp.set hni, ?_⟩
+      rw [absPool_set', hne]; simp [OMap.merge]
+  | mputAll i j =>
+    simp only [stepHImpl, stepHSpec, absPool_get]
+    cases hg : pool[i]? with
+    | none => exact ⟨hp, by simp⟩
+    | some h =>
+      cases hg2 : pool[j]? with
+      | none => exact ⟨hp, by simp⟩
+      | some o =>
+        obtain ⟨n, hm, hne, hni⟩ := (hp.get hg).putAll (hp.get hg2).1
+        simp only [hm, Option.map_some]
+        refine ⟨hp.set hni, ?_⟩
+        rw [absPool_set', hne]
 
 end Pcore.Coll
